@@ -24,7 +24,7 @@ extern void __tsan_release(void *) __attribute__((weak));
 #define TSAN_ACQ(p) do { if (__tsan_acquire) __tsan_acquire(p); } while (0)
 #define TSAN_REL(p) do { if (__tsan_release) __tsan_release(p); } while (0)
 
-enum { ST_UNUSED = 0, ST_READY, ST_LOCK, ST_WAITCV, ST_JOIN, ST_FINISHED, ST_YIELD, ST_PRED };
+enum { ST_UNUSED = 0, ST_READY, ST_LOCK, ST_WAITCV, ST_JOIN, ST_FINISHED, ST_YIELD, ST_PRED, ST_FUTEX };
 
 typedef struct VMutex { void *addr; int owner; int count; } VMutex;
 typedef struct VCond { void *addr; int nw; int w[VS_MAXT]; } VCond;
@@ -35,6 +35,7 @@ typedef struct VThread {
     VCond *cv;            /* ST_WAITCV */
     int target;           /* ST_JOIN */
     int (*pred)(void *); void *predarg;   /* ST_PRED */
+    void *faddr; uint32_t fbits; long fseq; /* ST_FUTEX: word waited on, bitset, arrival order */
     int timed; int64_t deadline_ns; int timedout;
     int go;               /* futex word */
     pthread_t real;
@@ -57,6 +58,7 @@ static struct {
     int64_t clock_ns;
     long cell[VS_NCELL];
     uint64_t new_states;
+    long fseq;
 } G;
 
 static __thread VThread *self;
@@ -64,7 +66,14 @@ static __thread VThread *self;
 /* ------------------------------------------------------------------ real functions */
 #define REAL(name) ({ static __typeof__(&name) p_; if (!p_) p_ = (__typeof__(&name))dlsym(RTLD_NEXT, #name); p_; })
 
-static long sys_futex(int *addr, int op, int val) { return syscall(SYS_futex, addr, op, val, NULL, NULL, 0); }
+/* raw system call (the libc wrapper `syscall` is interposed below) */
+static long raw_syscall6(long n, long a, long b, long c, long d, long e, long f) {
+    long ret;
+    register long r10 __asm__("r10") = d; register long r8 __asm__("r8") = e; register long r9 __asm__("r9") = f;
+    __asm__ volatile("syscall" : "=a"(ret) : "a"(n), "D"(a), "S"(b), "d"(c), "r"(r10), "r"(r8), "r"(r9) : "rcx", "r11", "memory");
+    return ret;
+}
+static long sys_futex(int *addr, int op, int val) { return raw_syscall6(SYS_futex, (long)addr, op, val, 0, 0, 0); }
 
 static void park(VThread *t) {
     for (;;) {
@@ -132,13 +141,13 @@ static VCond *cnd(void *addr) {
     return c;
 }
 
-static int is_timeout_alt(const VThread *t) { return t->state == ST_WAITCV && t->timed && t->m->owner < 0; }
+static int is_timeout_alt(const VThread *t) { return (t->state == ST_WAITCV && t->timed && t->m->owner < 0) || (t->state == ST_FUTEX && t->timed); }
 
 static int enabled(const VThread *t) {
     switch (t->state) {
     case ST_READY: case ST_YIELD: return 1;
     case ST_LOCK: return t->m->owner < 0 || t->m->owner == t->id;
-    case ST_WAITCV: return is_timeout_alt(t);
+    case ST_WAITCV: case ST_FUTEX: return is_timeout_alt(t);
     case ST_JOIN: return G.T[t->target].state == ST_FINISHED;
     case ST_PRED: return t->pred(t->predarg) != 0;
     default: return 0;
@@ -149,6 +158,7 @@ static uint64_t fingerprint(void) {
     uint64_t h = 0x1234567;
     for (int i = 0; i < G.nt; i++) {
         VThread *t = &G.T[i];
+        if (t->state == ST_FUTEX) h = vs_mix(h, (uint64_t)(uintptr_t)t->faddr);
         h = vs_mix(h, (uint64_t)t->state | ((uint64_t)t->npoints << 8) | ((uint64_t)(t->m ? (t->m - G.M) + 1 : 0) << 32)
                       | ((uint64_t)(t->cv ? (t->cv - G.C) + 1 : 0) << 40) | ((uint64_t)(t->target + 1) << 48));
     }
@@ -220,7 +230,7 @@ static void sched(VThread *me) {
             VThread *t = &G.T[i];
             const char *st = t->state == ST_LOCK ? "blocked-on-mutex" : t->state == ST_WAITCV ? "waiting-on-condvar" :
                              t->state == ST_JOIN ? "joining" : t->state == ST_FINISHED ? "finished" :
-                             t->state == ST_PRED ? "blocked-in-harness-wait" : "ready";
+                             t->state == ST_PRED ? "blocked-in-harness-wait" : t->state == ST_FUTEX ? "waiting-on-futex(atomic-wait/semaphore)" : "ready";
             o += snprintf(buf + o, sizeof buf - o, " t%d:%s", i, st);
             if (t->state == ST_JOIN) o += snprintf(buf + o, sizeof buf - o, "(t%d)", t->target);
         }
@@ -234,7 +244,11 @@ static void sched(VThread *me) {
         pick = choose(n, flags, sig);
     }
     VThread *next = &G.T[en[pick]];
-    if (is_timeout_alt(next)) {          /* the timed wait expires */
+    if (is_timeout_alt(next) && next->state == ST_FUTEX) {          /* the timed futex wait expires */
+        next->timedout = 1; next->state = ST_READY; next->faddr = NULL;
+        if (G.clock_ns < next->deadline_ns) G.clock_ns = next->deadline_ns;
+        log_event(VS_EV_TIMEOUT, next->id, 1, 0);
+    } else if (is_timeout_alt(next)) {          /* the timed wait expires */
         VCond *c = next->cv;
         for (int k = 0; k < c->nw; k++) if (c->w[k] == next->id) { memmove(&c->w[k], &c->w[k + 1], (c->nw - k - 1) * sizeof(int)); c->nw--; break; }
         next->timedout = 1; next->state = ST_LOCK; next->cv = NULL;
@@ -455,41 +469,95 @@ int pthread_join(pthread_t th, void **ret) {
     return REAL(pthread_join)(th, ret);
 }
 
+/* ------------------------------------------------------------------ futex words: C++20 std::atomic wait/notify, semaphores, latches
+ * libstdc++ implements them in headers on top of the libc wrapper syscall(SYS_futex, ...), which the executable interposes.  FUTEX_WAIT is a
+ * scheduling point followed by the value check; a thread whose check passes is disabled until a FUTEX_WAKE on the same word picks it (which
+ * waiter a wake of one picks is a recorded free choice) or, for timed waits, until the timeout alternative is taken.  A wake is a scheduling
+ * point before and after its effect (the window between "published the flag" and "the woken thread runs"). */
+static long real_syscall_ret(long r) { if (r < 0 && r > -4096) { errno = (int)-r; return -1; } return r; }
+
+static long futex_op(int *addr, int op, int val, const struct timespec *ts, uint32_t bits) {
+    VThread *me = self;
+    int cmd = op & 127;
+    if (cmd == FUTEX_WAIT || cmd == FUTEX_WAIT_BITSET) {
+        point(me);
+        if (__atomic_load_n(addr, __ATOMIC_SEQ_CST) != val) { errno = EAGAIN; return -1; }
+        me->state = ST_FUTEX; me->faddr = addr; me->fbits = cmd == FUTEX_WAIT ? 0xffffffffu : bits; me->fseq = ++G.fseq; me->timedout = 0;
+        me->timed = ts != NULL;
+        if (ts) me->deadline_ns = cmd == FUTEX_WAIT ? G.clock_ns + ts_ns(ts) : ts_ns(ts);
+        G.slot->parked_any = 1;
+        log_event(VS_EV_PARK, me->id, -1, (long)(uintptr_t)addr & 0xffff);
+        sched(me);
+        me->faddr = NULL; me->timed = 0;
+        log_event(VS_EV_UNPARK, me->id, -1, me->timedout);
+        if (me->timedout) { errno = ETIMEDOUT; return -1; }
+        return 0;
+    }
+    if (cmd == FUTEX_WAKE || cmd == FUTEX_WAKE_BITSET) {
+        if (cmd == FUTEX_WAKE) bits = 0xffffffffu;
+        point(me);
+        int w[VS_MAXT], nw = 0;
+        for (int i = 0; i < G.nt; i++) if (G.T[i].state == ST_FUTEX && G.T[i].faddr == addr && (G.T[i].fbits & bits)) w[nw++] = i;
+        for (int i = 1; i < nw; i++) for (int j = i; j > 0 && G.T[w[j]].fseq < G.T[w[j - 1]].fseq; j--) { int t = w[j]; w[j] = w[j - 1]; w[j - 1] = t; }
+        int woken = 0;
+        if (nw > 0 && val == 1) {
+            int k = 0;
+            if (nw > 1) { uint32_t sig = 0x77; for (int i = 0; i < nw; i++) sig = sig * 31 + (uint32_t)w[i]; k = choose(nw, VS_F_SIGNAL_TARGET, sig); }
+            G.T[w[k]].state = ST_READY; woken = 1;
+            log_event(VS_EV_SIGNAL, me->id, -1, w[k]);
+        } else {
+            for (int i = 0; i < nw && woken < val; i++) { G.T[w[i]].state = ST_READY; woken++; }
+            log_event(VS_EV_BROADCAST, me->id, -1, woken);
+        }
+        if (woken) point(me);
+        return woken;
+    }
+    fatal_outcome(VS_OUT_HORIZON, "futex operation %d is not modelled by the scheduler", cmd);
+}
+
+long syscall(long n, ...) {
+    va_list ap; va_start(ap, n);
+    long a = va_arg(ap, long), b = va_arg(ap, long), c = va_arg(ap, long), d = va_arg(ap, long), e = va_arg(ap, long), f = va_arg(ap, long);
+    va_end(ap);
+    if (n == SYS_futex && controlled()) return futex_op((int *)a, (int)b, (int)c, (const struct timespec *)d, (uint32_t)f);
+    return real_syscall_ret(raw_syscall6(n, a, b, c, d, e, f));
+}
+
 /* ------------------------------------------------------------------ time */
 static void yield_point(void) { VThread *me = self; me->state = ST_YIELD; sched(me); }
 
-int sched_yield(void) { if (controlled()) { yield_point(); return 0; } return (int)syscall(SYS_sched_yield); }
+int sched_yield(void) { if (controlled()) { yield_point(); return 0; } return (int)real_syscall_ret(raw_syscall6(SYS_sched_yield, 0, 0, 0, 0, 0, 0)); }
 
 int nanosleep(const struct timespec *req, struct timespec *rem) {
-    if (!controlled()) return (int)syscall(SYS_nanosleep, req, rem);
+    if (!controlled()) return (int)real_syscall_ret(raw_syscall6(SYS_nanosleep, (long)req, (long)rem, 0, 0, 0, 0));
     G.clock_ns += ts_ns(req); yield_point(); return 0;
 }
 int clock_nanosleep(clockid_t clk, int flags, const struct timespec *req, struct timespec *rem) {
-    if (!controlled()) return (int)syscall(SYS_clock_nanosleep, clk, flags, req, rem);
+    if (!controlled()) return (int)real_syscall_ret(raw_syscall6(SYS_clock_nanosleep, clk, flags, (long)req, (long)rem, 0, 0));
     if (flags & TIMER_ABSTIME) { if (ts_ns(req) > G.clock_ns) G.clock_ns = ts_ns(req); } else G.clock_ns += ts_ns(req);
     yield_point(); return 0;
 }
 int usleep(useconds_t us) {
-    if (!controlled()) { struct timespec ts = { us / 1000000, (long)(us % 1000000) * 1000 }; return (int)syscall(SYS_nanosleep, &ts, NULL); }
+    if (!controlled()) { struct timespec ts = { us / 1000000, (long)(us % 1000000) * 1000 }; return (int)real_syscall_ret(raw_syscall6(SYS_nanosleep, (long)&ts, 0, 0, 0, 0, 0)); }
     G.clock_ns += (int64_t)us * 1000; yield_point(); return 0;
 }
 unsigned int sleep(unsigned int sec) {
-    if (!controlled()) { struct timespec ts = { sec, 0 }; syscall(SYS_nanosleep, &ts, NULL); return 0; }
+    if (!controlled()) { struct timespec ts = { sec, 0 }; raw_syscall6(SYS_nanosleep, (long)&ts, 0, 0, 0, 0, 0); return 0; }
     G.clock_ns += (int64_t)sec * 1000000000LL; yield_point(); return 0;
 }
 
 int clock_gettime(clockid_t clk, struct timespec *ts) {
     if (controlled()) { ts->tv_sec = G.clock_ns / 1000000000LL; ts->tv_nsec = G.clock_ns % 1000000000LL; return 0; }
-    return (int)syscall(SYS_clock_gettime, clk, ts);
+    return (int)real_syscall_ret(raw_syscall6(SYS_clock_gettime, clk, (long)ts, 0, 0, 0, 0));
 }
 int gettimeofday(struct timeval *tv, void *tz) {
     if (controlled()) { if (tv) { tv->tv_sec = G.clock_ns / 1000000000LL; tv->tv_usec = (G.clock_ns % 1000000000LL) / 1000; } return 0; }
-    return (int)syscall(SYS_gettimeofday, tv, tz);
+    return (int)real_syscall_ret(raw_syscall6(SYS_gettimeofday, (long)tv, (long)tz, 0, 0, 0, 0));
 }
 time_t time(time_t *t) {
     time_t v;
     if (controlled()) v = (time_t)(G.clock_ns / 1000000000LL);
-    else { struct timespec ts; syscall(SYS_clock_gettime, CLOCK_REALTIME, &ts); v = ts.tv_sec; }
+    else { struct timespec ts; raw_syscall6(SYS_clock_gettime, CLOCK_REALTIME, (long)&ts, 0, 0, 0, 0); v = ts.tv_sec; }
     if (t) *t = v;
     return v;
 }
